@@ -212,7 +212,8 @@ def build(wiring):
 
 
 def emit(net, lenvecs, mode, W, offs=None, module="MC", invariants=("NoPanic", "SingleReader", "Report"),
-         extra_cfg="", seed_checked=True, op_close_first=True, op3_concurrent=True):
+         extra_cfg="", seed_checked=True, op_close_first=True, op3_concurrent=True,
+         extends="Pipeline", extra_defs="", init="Init", next_="Next", extra_consts=""):
     """returns (tla_text, cfg_text)"""
     P = net.procs
     np_, nc = len(P), len(net.caps)
@@ -221,7 +222,9 @@ def emit(net, lenvecs, mode, W, offs=None, module="MC", invariants=("NoPanic", "
     off_f = "[p \\in {%s} |-> %s]" % (
         ", ".join(str(s) for s in sinks) if sinks else "",
         " ".join(["CASE"] + [" [] ".join("p = %d -> %d" % (s, offs.get(s, 0)) for s in sinks)]) if sinks else "0")
-    lines = ["---- MODULE %s ----" % module, "EXTENDS Pipeline", ""]
+    lines = ["---- MODULE %s ----" % module, "EXTENDS " + extends, ""]
+    if extra_defs:
+        lines.append(extra_defs)
     lines.append("MCKind == " + tla_seq(tla_str(p["kind"]) for p in P))
     lines.append("MCIns == " + tla_seq(tla_seq(p["ins"]) for p in P))
     lines.append("MCOuts == " + tla_seq(tla_seq(p["outs"]) for p in P))
@@ -243,7 +246,9 @@ def emit(net, lenvecs, mode, W, offs=None, module="MC", invariants=("NoPanic", "
            " SeedChecked = %s" % ("TRUE" if seed_checked else "FALSE"),
            " OpCloseFirst = %s" % ("TRUE" if op_close_first else "FALSE"),
            " Op3Concurrent = %s" % ("TRUE" if op3_concurrent else "FALSE"),
-           "INIT Init", "NEXT Next", "CHECK_DEADLOCK FALSE"]
+           "INIT " + init, "NEXT " + next_, "CHECK_DEADLOCK FALSE"]
+    if extra_consts:
+        cfg.insert(1, extra_consts)
     if invariants:
         cfg.append("INVARIANTS " + " ".join(invariants))
     if extra_cfg:
